@@ -1,7 +1,7 @@
 (* Corr/C14.v — replays an observed schedule on the Hybrid model (prefix tables from Gen/C14.v) and compares
    per-caller result logs, the number of spawned write-backs and the final content of the three tiers; in
    `cat` mode compares category / getCacheForKey of arbitrary keys with the real functions. *)
-From TX Require Import Base.Val Model.Hybrid Gen.C14.
+From TX Require Import Base.Val Model.Hybrid Model.HybridNodes Gen.C14.
 
 Definition GenTables : tables :=
   {| t_pers := PersistentPrefixes; t_shared := SharedPrefixes; t_sp := SharedPersistentPrefixes |}.
@@ -105,8 +105,42 @@ Definition check_cat (v : tval) : bool :=
                    && Bool.eqb (tier_eqb (cache_for_key GenTables full_cfg k) TShared) (vbool (vnth 1 o)))
        (map vb (vl (vnth 2 v))) (vl (vnth 7 v)).
 
+(* nodes mode: case = [ 2 ; cfg ; keys ; init ; steps ; [] ; number of nodes ; observed ]
+   init tier code: 2 persistent, 1 shared cache, 10+i local cache of node i      step = [node ; op]  (node = number of nodes: a fresh node)
+   observed = [ results ; [local tier of node 0; ...] ; shared ; pers ] *)
+Definition store_set (s : store) (k : kbytes) (x : value) : store := supd s k (Some x).
+Definition nodes_init (v : tval) : mworld :=
+  let keys := map vb (vl (vnth 2 v)) in
+  fold_left (fun m e =>
+               let k := dec_key keys (vnth 1 e) in let x := dec_value (vnth 2 e) in
+               match vn (vnth 0 e) with
+               | 2%N => {| m_locals := m_locals m; m_shared := m_shared m; m_pers := store_set (m_pers m) k x |}
+               | 1%N => {| m_locals := m_locals m; m_shared := store_set (m_shared m) k x; m_pers := m_pers m |}
+               | t => let i := N.to_nat (t - 10) in
+                      {| m_locals := upd_nth i (store_set (nth i (m_locals m) empty_store) k x) (m_locals m); m_shared := m_shared m; m_pers := m_pers m |}
+               end)
+            (vl (vnth 3 v))
+            {| m_locals := repeat empty_store (vnat (vnth 6 v)); m_shared := empty_store; m_pers := empty_store |}.
+Definition nodes_run (v : tval) : mworld * list (option res) :=
+  let keys := map vb (vl (vnth 2 v)) in
+  mexec_seq GenTables (dec_cfg (vnth 1 v)) (nodes_init v)
+            (map (fun sv => (vnat (vnth 0 sv), dec_op keys (vnth 1 sv))) (vl (vnth 4 v))).
+Definition store_obs (keys : list kbytes) (s : store) (obs : tval) : bool :=
+  forallb (fun ik => ovalue_eqb (s (snd ik))
+                       (match find (fun e => Nat.eqb (vnat (vnth 0 e)) (fst ik)) (vl obs) with
+                        | Some e => Some (dec_value (vnth 1 e)) | None => None end))
+          (combine (seq 0 (length keys)) keys).
+Definition check_nodes (v : tval) : bool :=
+  let keys := map vb (vl (vnth 2 v)) in
+  let '(m, rs) := nodes_run v in
+  let obs := vnth 7 v in
+  all2 (fun r ov => match r with Some x => res_eqb x (dec_res ov) | None => false end) rs (vl (vnth 0 obs))
+  && all2 (store_obs keys) (m_locals m) (vl (vnth 1 obs))
+  && store_obs keys (m_shared m) (vnth 2 obs)
+  && store_obs keys (m_pers m) (vnth 3 obs).
+
 Definition check (v : tval) : bool :=
-  match vn (vnth 0 v) with 0%N => check_sched v | _ => check_cat v end.
+  match vn (vnth 0 v) with 0%N => check_sched v | 2%N => check_nodes v | _ => check_cat v end.
 
 Definition enc_value (x : value) : tval :=
   match x with
@@ -122,6 +156,10 @@ Definition enc_tier (keys : list kbytes) (w : world) (t : tier) : tval :=
 Definition predict (v : tval) : tval :=
   let keys := map vb (vl (vnth 2 v)) in
   match vn (vnth 0 v) with
+  | 2%N => let '(m, rs) := nodes_run v in
+           VL [VL (map (fun r => match r with Some x => enc_res x | None => VL [VN 9] end) rs);
+               VL (map (fun s => VL (flat_map (fun ik => match s (snd ik) with Some x => [VL [VN (N.of_nat (fst ik)); enc_value x]] | None => [] end)
+                                              (combine (seq 0 (length keys)) keys))) (m_locals m ++ [m_shared m; m_pers m]))]
   | 0%N =>
       let '(w, ts) := model_run v in
       VL [VL (map (fun t => match t with TCaller cl => VL (map enc_res (rev (log cl))) | _ => VL [] end)
